@@ -535,9 +535,12 @@ impl FaitAccompli1Sampler<PartitionSampler> {
         let mut required_samples = Vec::new();
         let mut validators_truncated_stake = validators.clone();
         for v in &mut validators_truncated_stake {
-            let frac_stake = v.stake.inner() as f64 / total_stake.inner() as f64;
-            let samples = (frac_stake * k as f64).floor() as u64;
-            v.stake -= Stake::new(samples * total_stake.inner() / k);
+            // exact integer arithmetic: floating point under-allocates seats when
+            // `stake * k` is an exact multiple of the total stake (e.g. 1/49 * 49 < 1.0)
+            let samples =
+                (v.stake.inner() as u128 * k as u128 / total_stake.inner() as u128) as u64;
+            v.stake -=
+                Stake::new((samples as u128 * total_stake.inner() as u128 / k as u128) as u64);
             required_samples.extend((0..samples).map(|_| v.id));
         }
         let all_zero = validators_truncated_stake
@@ -567,9 +570,12 @@ impl FaitAccompli1Sampler<IidQuorumSampler<StakeWeightedSampler>> {
         let mut required_samples = Vec::new();
         let mut validators_truncated_stake = validators.clone();
         for v in &mut validators_truncated_stake {
-            let frac_stake = v.stake.inner() as f64 / total_stake.inner() as f64;
-            let samples = (frac_stake * k as f64).floor() as u64;
-            v.stake -= Stake::new(samples * total_stake.inner() / k);
+            // exact integer arithmetic: floating point under-allocates seats when
+            // `stake * k` is an exact multiple of the total stake (e.g. 1/49 * 49 < 1.0)
+            let samples =
+                (v.stake.inner() as u128 * k as u128 / total_stake.inner() as u128) as u64;
+            v.stake -=
+                Stake::new((samples as u128 * total_stake.inner() as u128 / k as u128) as u64);
             required_samples.extend((0..samples).map(|_| v.id));
         }
         let all_zero = validators_truncated_stake
@@ -638,8 +644,9 @@ impl FaitAccompli2Sampler {
         let total_stake: Stake = validators.iter().map(|v| v.stake).sum();
         let mut required_samples = Vec::new();
         for v in &validators {
-            let frac_stake = v.stake.inner() as f64 / total_stake.inner() as f64;
-            let samples = (frac_stake * k as f64).floor() as u64;
+            // exact integer arithmetic, see `FaitAccompli1Sampler`
+            let samples =
+                (v.stake.inner() as u128 * k as u128 / total_stake.inner() as u128) as u64;
             required_samples.extend((0..samples).map(|_| v.id));
         }
 
